@@ -76,6 +76,16 @@ OriginPanic(line, failed) ==
    /\ HasEmptyMapInSeq(line.in)
    /\ "ji" \in DOMAIN line.obs /\ line.obs.ji.ok /\ line.obs.ji.v = J1(line)       \* the same YAML text loads without the option
 
+(* F-C03-8: openapi3.T has its MarshalJSON / MarshalYAML on the pointer (every other struct-like kind and   *)
+(* openapi2.T have them on the value): json.Marshal of a T held BY VALUE (json.Marshal of a dereferenced doc, a T embedded *)
+(* by value in a response struct) does not reach them, encoding/json writes the tagged struct fields and    *)
+(* the root's extensions and unknown keys (Extensions is tagged "-") are lost.  W = j1 restricted to the    *)
+(* catalogue fields of the root.                                                                            *)
+RootKnownOnly(v) == LET keep == [i \in DOMAIN v.k |-> v.k[i] \in FieldNames("T3")] IN Ov(Pick(v.k, keep, 1), Pick(v.v, keep, 1))
+ByValueRootExt(line, failed) ==
+   /\ failed = "jv" /\ line.ver = 3 /\ "jv" \in DOMAIN line.obs /\ line.obs.jv.ok
+   /\ line.obs.jv.v # J1(line) /\ line.obs.jv.v = RootKnownOnly(J1(line))
+
 Class(line, failed) ==
    IF failed = "first"
    THEN IF AnyNullDropped(line) THEN "any_null_dropped"
@@ -86,5 +96,6 @@ Class(line, failed) ==
    ELSE IF YamlEmitter(line, failed) THEN "yaml_emitter_block_scalar_or_merge_key"
    ELSE IF OriginInvented(line, failed) THEN "include_origin_key_invented"
    ELSE IF OriginPanic(line, failed) THEN "include_origin_empty_map_in_sequence_panics"
+   ELSE IF ByValueRootExt(line, failed) THEN "v3_T_by_value_drops_root_extensions"
    ELSE "none"
 =============================================================================
